@@ -7,10 +7,19 @@ job = {
   "out_exists": bool,                       # whether the output directory exists before the first build
   "out_dotdot": bool,                       # hand the output directory to JMC as <tmp>/proj/../out (what `cwd / "../out"` of
                                             # terminal/configuration.py gives) instead of the normalised <tmp>/out
+  "paths": null | {                         # (round 4) how JMC is GIVEN its paths; default: canonical absolute paths, cwd untouched
+     "mkdirs": [rel, ...],                  #   extra folders below the private temporary folder <tmp> (which holds proj/, out/, outside/)
+     "links": [[rel, target], ...],         #   symbolic links <tmp>/rel -> target ("{TMP}" = <tmp>; relative targets allowed)
+     "cwd": rel,                            #   working directory of the compile, below <tmp> ("proj", ".", "elsewhere/deep")
+     "output": str, "target": str,          #   as written in jmc_config.json ("../out", "out/", "{TMP}/lnk/out"; "main.jmc")
+     "mode": "config" | "raw" },            #   config: GlobalData.cwd / <string> (terminal/configuration.py load_config);
+                                            #   raw: Path(<string>) as an API caller may pass it (relative paths stay relative)
+                                            # the output must denote <tmp>/out and the target <tmp>/proj/main.jmc
   "init": [[relpath, null | text], ...],    # initial content of the output directory (null = directory), created in order
   "copy_src": null | [[relpath, null|text], ...],   # content of <project>/cp  (the folder `#copy "cp"` refers to)
   "builds": [ {"src": str, "header": null|str,   # "{OUTSIDE}" in the header = absolute path of a folder NEXT TO the output directory
                                             # (holds keep.txt, pack/...; result["outside_changed"] says whether the build touched it)
+               # "{TMP}" in the header = the private temporary folder (absolute `#static` arguments)
                "touch": null|[[relpath, null|text], ...],   # files the user puts into (or overwrites in) the output directory before this build
                "remove": null|[relpath, ...],               # files / folders the user deletes from the output directory before this build
                "pack_format": null|str,                     # pack format of THIS build (default: the job's)
@@ -46,6 +55,7 @@ from jmc.compile.datapack import DataPack
 from jmc.compile.header import Header
 
 GlobalData().init("x", "jmc_config.json")
+START_CWD = os.getcwd()
 
 DEFAULT_NAMES = dict(load_name="__load__", tick_name="__tick__", private_name="__private__",
                      var_name="__variable__", int_name="__int__", storage_name="__storage__")
@@ -61,6 +71,7 @@ class Tracer:
         self.crash_at = None
         self.oserror_path = None
         self.torn = (1, 2)
+        self.dcache = {}
 
     def rel(self, path, dir_fd=None):
         p = os.fspath(path)
@@ -68,12 +79,25 @@ class Tracer:
             p = p.decode()
         if dir_fd is not None and not os.path.isabs(p):
             p = os.path.join(os.readlink(f"/proc/self/fd/{dir_fd}"), p)
-        p = os.path.abspath(p)
+        p = self.canon(p)
         if p == self.root:
             return "."
         if p.startswith(self.root + "/"):
             return p[len(self.root) + 1:]
         return None               # outside the output directory (sources, copy source)
+
+    def canon(self, p):
+        """the location the operating system gives the path: the directory part through os.path.realpath (symbolic links
+        and `..` as the kernel reads them), the last component as written (the mutated entry itself)"""
+        if not os.path.isabs(p):
+            p = os.path.join(os.getcwd(), p)
+        d, b = os.path.split(p.rstrip("/") or "/")
+        if b in ("", ".", ".."):
+            return os.path.realpath(p)
+        rd = self.dcache.get(d)
+        if rd is None:
+            rd = self.dcache[d] = os.path.realpath(d)
+        return os.path.join(rd, b)
 
     def did(self, op, relpath, *more):
         self.trace.append([op, relpath, *more])
@@ -202,7 +226,7 @@ def _my_open(file, mode="r", *a, **k):
     if r is None:
         return _orig_open(file, mode, *a, **k)
     f = _orig_open(file, mode, *a, **k)
-    real = os.path.abspath(os.fspath(file))
+    real = T.canon(os.fspath(file))
     if T.did("create", r):
         f.close()
         raise KeyboardInterrupt(f"injected crash after create {T.n_mut}")
@@ -313,12 +337,35 @@ def run_job(job):
             make_tree(proj / "cp", job["copy_src"])
         outside = tmp / "outside"          # a folder next to the output directory: nothing JMC does may reach it
         make_tree(outside, [["keep.txt", "not yours"], ["pack/data/x/function/a.mcfunction", "say a"]])
+        paths = job.get("paths") or {}
+        for rel in paths.get("mkdirs") or []:
+            (tmp / rel).mkdir(parents=True, exist_ok=True)
+        for rel, target in paths.get("links") or []:
+            (tmp / rel).parent.mkdir(parents=True, exist_ok=True)
+            os.symlink(target.replace("{TMP}", str(tmp)), tmp / rel)
+        link_table = [[str(tmp / rel), os.path.realpath(tmp / rel)] for rel, _ in paths.get("links") or []]
+        cwd = (tmp / paths["cwd"]) if paths.get("cwd") is not None else None
+        if cwd is not None:
+            cwd.mkdir(parents=True, exist_ok=True)
+            os.chdir(cwd)
+            GlobalData().cwd = Path(os.getcwd())
+
+        def given(text, default):
+            """the Path handed to JMC for `text` as the user wrote it"""
+            if text is None:
+                return default
+            text = text.replace("{TMP}", str(tmp))
+            if paths.get("mode", "config") == "config":
+                return Path(os.getcwd()) / text          # terminal/configuration.py load_config: global_data.cwd / json[...]
+            return Path(text)
         for b in job["builds"]:
             proj.mkdir(exist_ok=True)          # (a build that escapes the output directory may have deleted it)
             (proj / "main.jmc").write_text(b["src"])
             hj = proj / "main.hjmc"
+            header_text = None
             if b.get("header") is not None:
-                hj.write_text(b["header"].replace("{OUTSIDE}", str(outside)))
+                header_text = b["header"].replace("{OUTSIDE}", str(outside)).replace("{TMP}", str(tmp))
+                hj.write_text(header_text)
             elif hj.exists():
                 hj.unlink()
             for rel in b.get("remove") or []:
@@ -331,9 +378,13 @@ def run_job(job):
                 make_tree(out, b["touch"])
             for k, v in DEFAULT_NAMES.items():       # C12's subject: names must not leak between compiles of this process
                 setattr(DataPack, k, v)
+            out_given = given(paths.get("output"), (proj / ".." / "out") if job.get("out_dotdot") else out)
+            target_given = given(paths.get("target"), proj / "main.jmc")
+            if os.path.realpath(out_given) != str(out) or not os.path.samefile(target_given, proj / "main.jmc"):
+                raise RuntimeError(f"job paths do not denote <tmp>/out and <tmp>/proj/main.jmc: {out_given} {target_given}")
             cfg = Configuration(GlobalData(), namespace=job.get("ns", "ns"), description=job.get("desc", "d"),
-                                pack_format=b.get("pack_format") or job.get("pack_format", "48"), target=proj / "main.jmc",
-                                output=(proj / ".." / "out") if job.get("out_dotdot") else out)
+                                pack_format=b.get("pack_format") or job.get("pack_format", "48"), target=target_given,
+                                output=out_given)
             Header().envs = []
             before = snapshot(out)
             outside_before = snapshot(outside)
@@ -343,6 +394,7 @@ def run_job(job):
             T.root, T.trace, T.n_mut, T.n_del = str(out), [], 0, 0
             T.crash_at, T.oserror_path = b.get("crash_at"), b.get("oserror_path")
             T.torn = tuple(b.get("torn") or (1, 2))
+            T.dcache = {}
             exc = None
             T.on = True
             try:
@@ -358,6 +410,11 @@ def run_job(job):
             if facts.get("copy"):
                 facts["copy_tree"] = snapshot(Path(facts["copy"]))
             facts["root"] = str(out)
+            # (round 4) the spellings AS GIVEN, for Model/BuildPath.v: the output directory as the operating system reads it
+            # (working directory first when relative), the symbolic links, the header text
+            facts["out_given"] = os.path.join(os.getcwd(), str(out_given))
+            facts["links"] = link_table
+            facts["header_text"] = header_text
             facts["pack_format"] = b.get("pack_format") or job.get("pack_format", "48")
             res["builds"].append({"before": before, "trace": T.trace, "after": after, "stage": STATE["stage"],
                                   "exc": exc, "facts": facts, "n_mut": T.n_mut, "n_del": T.n_del,
@@ -368,6 +425,7 @@ def run_job(job):
                 make_tree(outside, [["keep.txt", "not yours"], ["pack/data/x/function/a.mcfunction", "say a"]])
     finally:
         T.on = False
+        os.chdir(START_CWD)
         shutil.rmtree(tmp, ignore_errors=True)
     return res
 
